@@ -100,6 +100,13 @@ def _key_close(a: Tuple[Any, ...], b: Tuple[Any, ...]) -> bool:
 
 
 def _one(ctx: Any, expected: Expected, case: Dict[str, Any], name: str) -> None:
+    if "-n" not in case.get("extra_args", []):
+        from rpv.model import Model
+        from rpv.oracle.balance import is_valid
+
+        if not all(is_valid(Model(h)) for h in case["hists"].values()):
+            ctx.count("generated_invalid")
+            return
     ws = Workspace(ctx.scratch, name)
     try:
         hists = copy.deepcopy(case["hists"])
